@@ -28,6 +28,8 @@ def layouts(r, coin, blocks, k, thorough):
     if k % 2 == 0:
         c.symlinks = {'blk00007.dat': '/nonexistent/moved/blk00007.dat', 'old-blocks': '/nonexistent/old-blocks', 'blk00012.dat': 'blk00012.dat'}     # dangling links and a link loop, named by no record
         c.linked_files = [sorted(c.files)[0]]                                                                                   # one indexed blk file is reached through a symlink
+    if k % 2 == 1:
+        old_chain = equal_size_chain(r, coin, 3); c.nested = Case('nested%d' % k, coin).simple_layout(old_chain)      # a leftover `blocks/` sub-directory with an older, shorter chain of its own
     c.meta['files'] = files; yield c
     # 3 sparse offsets beyond 4 GiB, with a decoy block at the offset modulo 2^32 (a 32-bit truncation would silently deliver the decoy)
     c = base('sparse'); f = r.choice([0, 5]); hbig = r.randrange(n); decoy = gen.random_chain(r, coin, 1)[0]
@@ -79,7 +81,7 @@ def equal_size_chain(r, coin, n):
 def explore(ck):
     r = ck.rng; quick = ck.tier == 'quick'
     ck.rule = ('each logical chain is materialised in 6 physical layouts (the sixth: the index holds heights S..S+n-1 only, run with --start S) (reference; random permutation over 1-4 files numbered from {0,1,127,128,16383,16384,99999,100000,2^32,2^32+1,2^64-1; 2^64-1 / 2^64-128 / 2^64-129 forced in two of three chains} '
-               'with garbage padding, unindexed decoy blocks, extra LevelDB keys f/l/F/R/a/c, extra files, dangling symbolic links and a link loop named by no record, an indexed blk file reached through a symbolic link, and 4 name paddings; sparse offset beyond 4 GiB with a decoy at the offset mod 2^32; '
+               'with garbage padding, unindexed decoy blocks, extra LevelDB keys f/l/F/R/a/c, extra files, dangling symbolic links and a link loop named by no record, an indexed blk file reached through a symbolic link, a leftover `blocks/` sub-directory holding a complete older data directory, and 4 name paddings; sparse offset beyond 4 GiB with a decoy at the offset mod 2^32; '
                'file number >= 2^32 with a decoy in the file numbered mod 2^32; equal-sized blocks interleaved over two files); all layouts must give the csvdump output of the model of the reference. '
                'Non-trivial: the layout is not the reference; distinct by (chain, layout).')
     cases = []; groups = {}
